@@ -185,6 +185,8 @@ class LinearReconstructEveryK(TimeStepFilter):
                 time_indices,
             )
             time_indices = time_indices.at[: self.k].set(0)
+        # the clearing above also hits the final saved step when time_steps_max <= k; restore it
+        time_indices = time_indices.at[self._save_time_steps].set(index_tmp)
         self = self.aset("_time_to_arr_idx", time_indices, create_new_ok=True)
         return self, self._array_size, input_shape_dtypes, {}
 
